@@ -95,8 +95,9 @@ ASSUMPTIONS = [
     "root is permuted at the glob seam)",
 ]
 TIERS = {
-    "quick": {"runs": 3200, "chunk": 100, "max_lines": 4, "sweep_all": 24, "sweep_sample": 8},
-    "thorough": {"runs": 40000, "chunk": 250, "max_lines": 6, "sweep_all": 48, "sweep_sample": 12},
+    "quick": {"runs": 16000, "chunk": 500, "max_lines": 4, "sweep_all": 24, "sweep_sample": 8},
+    "thorough": {"runs": 200000, "chunk": 2500, "max_lines": 6, "sweep_all": 48, "sweep_sample": 12,
+                 "chunk_timeout": 900},
 }
 REACH_PROBES = [
     "same_pkg_in_two_files", "listing_order_changed_visit_order", "foreign_package_present",
@@ -722,6 +723,8 @@ class ReqWorld(World):
                                     title="pyscript")
             entry.add_to_hass(self.hass)
             self.probe("prior_record_seeded" if spec["record"] else "prior_entry_without_record")
+            if any(spec["table"].get(p, [None, None]) != [v, "pyscript"] for p, v in spec["record"].items()):
+                self.probe("stale_record_seeded")
         return hooks
 
     def digest(self) -> str:
@@ -987,7 +990,7 @@ def _split_req(req: str) -> tuple[str, str | None]:
     return req, None
 
 
-def judge_run(rec: dict, ref: dict, universe: list[str], tainted: set, probe) -> list:
+def judge_run(rec: dict, ref: dict, universe: list[str], tainted: set, probe, open_ever: set | None = None) -> list:
     """One run of install_requirements against the property."""
     out = []
     t = rec["t"]
@@ -995,8 +998,11 @@ def judge_run(rec: dict, ref: dict, universe: list[str], tainted: set, probe) ->
     sel = ref["sel"]
     where = f"run {k} ({rec['how']})"
     tainted |= ref["open"]
+    if open_ever is None:
+        open_ever = set()
+    open_ever |= ref["open"]
     if rec["exc"]:
-        has_np = bool(ref["open"])
+        has_np = bool(open_ever)  # a non-PEP-440 pin in this or an earlier run of the history
         out.append({"class": "C20.run_failed", "sig": {"where": "install_requirements", "exc": rec["exc_type"],
                                                        "nonpep440_pin": has_np},
                     "detail": f"{where}: install_requirements raised {rec['exc']} with files {rec['disk']}, "
@@ -1131,13 +1137,14 @@ def judge_run(rec: dict, ref: dict, universe: list[str], tainted: set, probe) ->
 def judge_history(w: "ReqWorld", sim: PkgSim, scn: dict) -> tuple[list, dict]:
     universe = list(scn["spec"]["pkgs"])
     tainted: set = set()
+    open_ever: set = set()
     out = []
     stats = {"allowed_runs_with_reqs": 0, "competing": 0, "installer_reqs": 0, "multi_file": 0}
     prev_sel = None
     for rec in sim.runs:
         ref = resolve(rec["lines"])
         sel = ref["sel"]
-        out.extend(judge_run(rec, ref, universe, tainted, w.probe))
+        out.extend(judge_run(rec, ref, universe, tainted, w.probe, open_ever))
         stats["installer_reqs"] += sum(len(c) for c in rec["calls"])
         if rec["allow"] and sel:
             stats["allowed_runs_with_reqs"] += 1
